@@ -68,8 +68,35 @@ def draw_hier(draw, max_ids=5, max_parts=4, max_dim=3, p_red=0.2, p_cov=0.3, kin
             and all(q['kind'] in ref.ELEM for q in pop['parts']):
         explicit_last = bool(gen.chance(draw, 0.6))
     prior = llbuild.draw_prior(draw, ref.pop_n_par(pop, n_ids), list(theta)) if with_prior else None
-    return dict(pop=pop, n_ids=n_ids, lls=lls, ids=ids, cov=cov, vec=vec, prior=prior, late=late, zero_scale=zero, nested_red=nested_red,
+    unneeded = None
+    bare_nc = pop['kind'] in ('gauss', 'lognorm') and not pop.get('centered', True)
+    if cov is None and gen.chance(draw, 0.6 if bare_nc else 0.12):
+        # covariates supplied although the population model uses none (documented: they are ignored)
+        k = draw(st.integers(1, 2))
+        unneeded = [[float(1 + i + 2 * c) for c in range(k)] for i in range(n_ids)]
+        if gen.chance(draw, 0.3):
+            unneeded[0][0] = 0.0
+    return dict(unneeded_cov=unneeded, pop=pop, n_ids=n_ids, lls=lls, ids=ids, cov=cov, vec=vec, prior=prior, late=late, zero_scale=zero, nested_red=nested_red,
                 explicit_last=explicit_last, psi_zero=psi_zero)
+
+
+def unneeded_cov_cases():
+    """Enumerated: a bare non-centred model (which takes no covariates) under a hierarchical likelihood that is handed
+    covariates anyway: one individual with a covariate of 1 / 0, two individuals."""
+    ll = dict(n_out=1, n_par=1, ems=[dict(kind='gauss', fixed=None)], times=[[0.5, 1.0]], obs=[[1.0, 1.4]],
+              tmode='single', tied=False)
+    out = []
+    for kind in ('gauss', 'lognorm'):
+        for n_ids, ucov in ((1, [[1.0]]), (1, [[0.0]]), (2, [[1.0], [2.0]]), (2, [[1.0, 0.0], [2.0, 3.0]])):
+            pop = dict(kind=kind, n_dim=2, centered=False)
+            top = [1.0, 0.5, 0.4, 0.2] if kind == 'gauss' else [0.1, -0.6, 0.4, 0.2]
+            bottom = [0.3 - 0.5 * i + 0.2 * d for i in range(n_ids) for d in range(2)]
+            out.append(dict(pop=pop, n_ids=n_ids, lls=[ll] * n_ids, ids=None, cov=None, unneeded_cov=ucov,
+                            vec=bottom + top, prior=[dict(kind='lognormal', a=0.0, b=1.0)] * 2 +
+                            [dict(kind='lognormal', a=-1.0, b=1.0)] * 2 if kind == 'gauss' else
+                            [dict(kind='gaussian', a=0.0, b=1.0)] * 2 + [dict(kind='lognormal', a=-1.0, b=1.0)] * 2,
+                            late=False))
+    return out
 
 
 def _cov_hetero(pop):
@@ -95,6 +122,8 @@ def build_hier(spec):
         lls.append(llbuild.build_ll(ll, ident=None if spec['ids'] is None else spec['ids'][i]))
     pm = build_population(spec, ll_param_names(spec))
     cov = None if spec['cov'] is None else np.array(spec['cov'], dtype=float)
+    if cov is None and spec.get('unneeded_cov') is not None:
+        cov = np.array(spec['unneeded_cov'], dtype=float)
     return chi.HierarchicalLogLikelihood(lls, pm, covariates=cov)
 
 
@@ -173,6 +202,10 @@ def classify(spec):
     for k in ('cov', 'comp', 'red'):
         if popgen.has(pop, k):
             labs.append(k)
+    if spec.get('unneeded_cov') is not None:
+        labs.append('unneeded_covariates')
+        if pop['kind'] in ('gauss', 'lognorm') and not pop.get('centered', True):
+            labs.append('unneeded_covariates:bare_noncentered')
     if pop['kind'] != 'comp':
         labs.append('bare')
     special = ref.pop_special(pop)
